@@ -65,42 +65,78 @@ def doc_cases(ctx, bases):
             continue          # two faults on one element can cancel each other
         cases.append({'base': name, 'faults': [a, b]})
         stats['pairs'] += 1
+    stats['truncations_exhaustive_bases'] = []
     for name in names:
-        n = F.serialised_len(bases[name])
-        k = 8 if quick else 60
-        for pos in sorted(set([0, 1, n - 1, n - 2] + [rng.randrange(2, n - 2) for _ in range(k)])):
+        data = F.apply_faults(bases[name], [])
+        n = len(data)
+        # every byte position of the small bases (quick: the smallest one; all of them: thorough),
+        # every position in or next to a multi-byte character of every base, plus a sample
+        exhaustive = name != 'full' and (not quick or name == 'small_tex')
+        if exhaustive:
+            stats['truncations_exhaustive_bases'].append(name)
+            positions = set(range(n + 1))
+        else:
+            positions = set([0, 1, n - 1, n - 2] + [rng.randrange(2, n - 2) for _ in range(8 if quick else 60)])
+            positions.update(F.nonascii_positions(data))
+        for pos in sorted(positions):
             fs = [{'kind': 'truncate', 'pos': pos}]
-            if rng.random() < 0.3:
+            if not exhaustive and rng.random() < 0.3:
                 fs.insert(0, rng.choice(sites[name]))
             cases.append({'base': name, 'faults': fs})
             stats['truncations'] += 1
+        # byte-level variants: byte order mark, leading white space, other encodings, invalid bytes
+        variants = [[{'kind': 'prefix', 'hex': 'efbbbf'}], [{'kind': 'prefix', 'hex': '0a20'}], [{'kind': 'prefix', 'hex': 'efbbbf0a'}],
+                    [{'kind': 'prefix', 'hex': 'fffe'}], [{'kind': 'reencode', 'enc': 'utf-16'}], [{'kind': 'reencode', 'enc': 'iso-8859-1'}],
+                    [{'kind': 'reencode', 'enc': 'us-ascii'}]]
+        na = [p for p in F.nonascii_positions(data) if p < n and data[p] >= 0x80]
+        for p in (na[:6] + [rng.randrange(0, n) for _ in range(4)]):
+            variants.append([{'kind': 'badbyte', 'pos': p, 'byte': rng.choice([0xFF, 0xC0, 0x80, 0xE6])}])
+        for v in variants:
+            cases.append({'base': name, 'faults': v})
+            if v[0]['kind'] != 'badbyte' and rng.random() < 0.5:
+                cases.append({'base': name, 'faults': v + [{'kind': 'truncate', 'pos': rng.randrange(1, n)}]})
+        stats['byte_level'] = stats.get('byte_level', 0) + len(variants)
     return cases, stats
 
 
 def mask_cases(ctx):
+    """histories on one Collada object: ignoreErrors(add / None) interleaved with errors handed to
+    handleError - directly and lazily (CImage.data of a missing file) - so that the same error class
+    occurs before and after a clear"""
     rng = ctx.rng
-    n = 150 if ctx.quick() else 2000
-    out = []
+    n = 200 if ctx.quick() else 3000
     tiny = c08docs.doc_small_tex()
+    P = lambda c: ['probe', c]
     fixed = [
-        {'ops': [['add', ['DaeError']], ['clear']], 'probes': DAE[:5]},
-        {'ops': [['clear']], 'probes': DAE[:5]},
-        {'ops': [['add', ['DaeBrokenRefError']]], 'probes': DAE[:5]},
-        {'ops': [['add', ['DaeBrokenRefError']], ['clear'], ['add', ['DaeMalformedError']]], 'probes': DAE[:5]},
-        {'ops': [['add', ['UserSub:DaeBrokenRefError', 'ValueError']]], 'probes': DAE[:5]},
+        {'ops': [['add', ['DaeError']], P('DaeBrokenRefError'), ['clear'], P('DaeBrokenRefError')]},
+        {'ops': [['add', ['DaeBrokenRefError']], ['lazy'], ['clear'], ['lazy'], ['add', ['DaeBrokenRefError']], ['lazy']],
+         'ctor': True, 'doc': tiny},
+        {'ops': [['add', ['DaeError']], ['lazy'], P('DaeMalformedError'), ['clear'], ['lazy'], P('DaeMalformedError')], 'doc': tiny},
+        {'ops': [['clear'], P('DaeIncompleteError')]},
+        {'ops': [['add', ['DaeBrokenRefError']], P('DaeMalformedError'), P('DaeBrokenRefError'), ['clear'],
+                 ['add', ['DaeMalformedError']], P('DaeBrokenRefError'), P('DaeMalformedError')]},
+        {'ops': [['add', ['UserSub:DaeBrokenRefError', 'ValueError']], P('DaeBrokenRefError'), ['add', ['DaeError']],
+                 P('DaeBrokenRefError'), ['clear'], P('DaeBrokenRefError')]},
     ]
-    out.extend(fixed)
+    out = list(fixed)
     for _ in range(n):
         ops = []
-        for _ in range(rng.randint(0, 4)):
-            if rng.random() < 0.3:
+        with_doc = rng.random() < 0.5
+        for _ in range(rng.randint(1, 8)):
+            r = rng.random()
+            if r < 0.18:
                 ops.append(['clear'])
+            elif r < 0.45:
+                ops.append(['add', [rng.choice(MASK_NAMES) for _ in range(rng.randint(1, 2))]])
+            elif r < 0.85 or not with_doc:
+                ops.append(P(rng.choice(DAE[:5])))
             else:
-                ops.append(['add', [rng.choice(MASK_NAMES) for _ in range(rng.randint(1, 3))]])
-        c = {'ops': ops, 'probes': [rng.choice(DAE[:5]) for _ in range(rng.randint(1, 5))]}
-        if ops and ops[0][0] == 'add' and rng.random() < 0.4:
-            c['ctor'] = True
+                ops.append(['lazy'])
+        c = {'ops': ops}
+        if with_doc:
             c['doc'] = tiny
+            if ops[0][0] == 'add' and rng.random() < 0.6:
+                c['ctor'] = True
         out.append(c)
     return out
 
@@ -158,9 +194,15 @@ def c_doc_case(res):
 
 
 def c_mask_case(case, res):
-    ops = clist(['IClear' if o[0] == 'clear' else '(IAdd %s)' % clist([c_mentry(n) for n in o[1]]) for o in case['ops']])
-    probes = clist([ctuple(cnat(c), cbool(r)) for c, r in res['probes']])
-    return '(CaseMask %s %s %s)' % (ops, probes, cnat(res['mask_len']))
+    steps = []
+    for st in res['steps']:
+        if st[0] == 'clear':
+            steps.append('(MOp IClear)')
+        elif st[0] == 'add':
+            steps.append('(MOp (IAdd %s))' % clist([c_mentry(n) for n in st[1]]))
+        else:
+            steps.append('(MProbe %s %s)' % (cnat(st[1]), cbool(st[2])))
+    return '(CaseMask %s %s)' % (clist(steps), cnat(res['mask_len']))
 
 
 # ------------------------------------------------------------------ running
@@ -187,7 +229,7 @@ def run_docs(bases, cases, chunk=60):
 
 
 def crashed_mask(case, reason):
-    return {'probes': [], 'mask_len': 0, 'fails': [{'signature': 'C08:mask:crash-or-hang', 'clause': 'crash-or-hang',
+    return {'steps': [], 'mask_len': 0, 'fails': [{'signature': 'C08:mask:crash-or-hang', 'clause': 'crash-or-hang',
                                                      'what': 'ignoreErrors/handleError history crashes or hangs: %s' % reason}]}
 
 
@@ -237,7 +279,7 @@ def run(ctx):
         r = allres[i]
         sigs = [f['signature'] for f in r.get('fails', [])]
         mismatches.append({'case_index': i, 'input': allcases[i],
-                           'implementation_observed': {k: v for k, v in r.items() if k in ('runs', 'events', 'probes', 'mask_len', 'affected')},
+                           'implementation_observed': {k: v for k, v in r.items() if k in ('runs', 'events', 'steps', 'mask_len', 'affected')},
                            'explained_by_known': bool(sigs) and all(s in known for s in sigs)})
     for i, r in enumerate(dres):
         if not r.get('trace_agrees', True):
